@@ -147,6 +147,28 @@ class Monitor:
                          f"{sid}@{tt} begins but producer {p} has unexecuted demanded "
                          f"step(s) {pendp[:2]} due at or before it (conn {ci})",
                          sim=sid, other=p)
+        # ---- C01, transitively: a step that some simulator still has to finish (demanded or in
+        # flight) and that can trigger a producer p of this simulator at a time whose output is
+        # due at or before tt.  mosaik cannot know that the relays in between will stay silent;
+        # for the behaviour in which they do not, p would be stepped after this step has begun.
+        for ci, c in enumerate(conns):
+            if c["dst"] != sid or c["src"] == sid or not c.get("sattr"):
+                continue
+            p = c["src"]
+            for q in T.sims:
+                if q in (sid, p):
+                    continue
+                xs = [x for x in self.pending(q) if x[0] < until]
+                if q in self.cur:
+                    xs.append(self.cur[q][1])
+                for x in xs:
+                    a = T.earliest_trigger_tuple(q, p, x)
+                    if a is not None and a[0] < until and T.arrive(c, a) <= tt:
+                        self.add("C01", "ancestor-step-outstanding",
+                                 f"{sid}@{tt} begins although the step {x} that {q} still has to "
+                                 f"finish can trigger its producer {p} at {a} (conn {ci}: due "
+                                 f"{T.arrive(c, a)})", sim=sid, other=q)
+                        break
         # ---- C01, second form: this step must not be due for a consumer step already begun
         for ci, c in enumerate(conns):
             if c["src"] != sid or c["dst"] == sid:
@@ -367,6 +389,23 @@ class Monitor:
         return diffs > 0
 
     # ------------------------------------------------------------------------
+    def _demand(self, p, x, cause):
+        """register the demand x of simulator p; if it is new, no consumer of p may already have
+        begun a step at or after the time its output is due (C01, second form, judged when the
+        demand arises -- the run may die before p ever performs that step)"""
+        new = x not in self.D[p]
+        self.D[p].setdefault(x, set()).add(cause)
+        if not new or x in self.Xset[p]:
+            return
+        for ci, c in enumerate(self.T.conns):
+            if c["src"] != p or c["dst"] == p or not c.get("sattr"):
+                continue
+            q = c["dst"]
+            if q in self.begun and self.T.arrive(c, x) <= self.begun[q]:
+                self.add("C01", "consumer-stepped-before-demand",
+                         f"{q} has already begun {self.begun[q]} when the step {x} of its producer "
+                         f"{p} is demanded (conn {ci}: due {self.T.arrive(c, x)})", sim=q, other=p)
+
     def on_step_ret(self, ev):
         _, sid, k, t, nxt = ev
         if sid not in self.cur:
@@ -374,7 +413,7 @@ class Monitor:
         k0, tt = self.cur[sid]
         if isinstance(nxt, int) and not isinstance(nxt, bool) and t < nxt < self.until:
             d = (nxt,) + zero(self.T.depth(sid) - 1)
-            self.D[sid].setdefault(d, set()).add((sid, tt))
+            self._demand(sid, d, (sid, tt))
         if not self.needs_data[sid]:
             del self.cur[sid]
 
@@ -396,7 +435,7 @@ class Monitor:
             if c["sattr"] in data.get("e", {}):
                 a = T.arrive(c, ott)
                 if a[0] < self.until:
-                    self.D[c["dst"]].setdefault(a, set()).add((sid, tt))
+                    self._demand(c["dst"], a, (sid, tt))
 
     # ------------------------------------------------------------------------
     def on_async_set(self, ev):
